@@ -42,6 +42,16 @@ def c37Step (file : Bytes) (line : String) : Bytes × String :=
       if offs.any Option.isNone then (file, "bad-op") else
       (file, ",".intercalate (offs.map (fun o => readCut m d oc b (o.getD 0))))
     | _, _, _ => (file, "bad-op")
+  | ["pybuf", b, ns] =>
+    -- CPython BufferedWriter with buffer size b: bytes on disk after each FlowWriter.add of records of these sizes
+    match b.toNat? with
+    | some bsz =>
+      let sizes := (ns.splitOn ",").map String.toNat?
+      if sizes.any Option.isNone then (file, "bad-op") else
+      let recs := sizes.map (fun o => List.replicate (o.getD 0) (0 : UInt8))
+      let sts := pyExplicit bsz BFile.empty recs
+      (file, ",".intercalate (sts.map (fun st => toString st.disk.length)))
+    | none => (file, "bad-op")
   | _ => (file, "bad-op")
 
 def main : IO Unit := runState c37Step []
